@@ -9,7 +9,7 @@ BOUNDS = {'quick': 'grids of length 2..5 (uniform and non-uniform); integrate wi
                    'programs of 1..2 resizing operations (crop/trim/pad/append/resample) with symbolic arguments on spectra of length 3..4',
           'thorough': 'grids up to 6, bin with up to 4 centres, programs of up to 3 operations'}
 ASSUMPTIONS = ['Simpson binning only with uniformly spaced centres and uniformly sampled data (as the property states)', 'sample_method linear',
-               'pad: ends chosen so that at most 3 samples are added per side']
+               'pad: ends chosen so that at most 3 samples are added per side, or none on a side whose requested end is the first / last sample']
 STUBS = ['scipy.integrate.simpson: linear in y; weights taken from the real scipy on the concrete abscissae', 'scipy.interpolate.interp1d(kind="linear")']
 
 GR = {'u3': [500, 510, 520], 'u5': [500, 510, 520, 530, 540], 'n3': [500, 504, 520], 'n4': [500, 503, 511, 530], 'u2': [500, 520], 'u4': [500, 510, 520, 530]}
@@ -173,6 +173,11 @@ def cfg_prog(tier, seed):
                     # crop bounds that the solver places exactly on an interpolated sample (k/3 nm) compare differently in floating
                     # point (A-REAL): the float comparison of translator validation is skipped for three-operation programs
                     out[-1]['_novalidate'] = True
+    # a pad whose requested end coincides with the first / last sample adds nothing on that side (left only, right only, no-op pad)
+    for grid in ('u3', 'n4'):
+        for prog in (['pad-constant'], ['pad-edge'], ['crop', 'pad-constant'], ['pad-constant', 'pad-constant'], ['pad-edge', 'append']):
+            for ends in ('left', 'right', 'none'):
+                out.append({'grid': grid, 'prog': prog, 'padends': ends})
     return out, len(out), True
 
 
@@ -224,6 +229,11 @@ def run_prog(W, cfg):
             if dw is None:
                 return
             e0, e1 = g0 - dw * Fraction(3, 2), g1 + dw * Fraction(5, 2)
+            ends = cfg.get('padends', 'both')
+            if ends in ('right', 'none'):
+                e0 = g0
+            if ends in ('left', 'none'):
+                e1 = g1
             if e0 <= 0:
                 return
             if op == 'pad-constant':
@@ -235,8 +245,8 @@ def run_prog(W, cfg):
             nl = -((e0 - g0) // dw) + 1          # ceil((g0-e0)/dw) + 1 points from e0 to g0, last dropped
             nr = -((g1 - e1) // dw) + 1
             nl, nr = int(nl), int(nr)
-            left = [(e0 + (g0 - e0) * Fraction(k, nl - 1), pv[0]) for k in range(nl - 1)]
-            right = [(g1 + (e1 - g1) * Fraction(k, nr - 1), pv[1]) for k in range(1, nr)]
+            left = [(e0 + (g0 - e0) * Fraction(k, max(nl - 1, 1)), pv[0]) for k in range(nl - 1)]
+            right = [(g1 + (e1 - g1) * Fraction(k, max(nr - 1, 1)), pv[1]) for k in range(1, nr)]
             pairs = left + pairs + right
         elif op.startswith('append'):
             g1 = pairs[-1][0]
